@@ -154,9 +154,11 @@ def run(ctx):
     wl = ["rpu.wf " + l.split(" ")[1] for l in lines if l.startswith("rpu.write ")]
     wo, _, _ = common.run_lines_sharded(common.MODEL_EXE, wl)
     for l, o in zip(wl, wo):
-        if o.startswith("wf="):
+        if o.startswith("sesmall="):
             f = dict(x.split("=") for x in o.split(" "))
             ctx.count("parsed RPU inside theorem hypothesis" if f["wf"] == "1" else "parsed RPU outside theorem hypothesis (%s)" % f["why"])
+            ctx.count("accepted input inside the hypothesis of parse_write_exact (|integer coefficient parts| < 2^52)" if f["sesmall"] == "1"
+                      else "accepted input outside parse_write_exact (an integer coefficient part >= 2^52: f64 rounding of get_se; CRC guard only)")
             if f["wf"] == "1" and f["write"] == "ok" and f["reparse"] != "same":
                 ctx.disagree("theorem instance (write_parse_sound) on the executable model", l[:3000], "reparse=same", o)
     for (op, inp, trimmed), o in zip(meta, io_):
